@@ -47,6 +47,8 @@ func main() {
 		err = cmdDeep(os.Args[2:])
 	case "deepchild":
 		err = cmdDeepChild(os.Args[2:])
+	case "wide":
+		err = cmdWide(os.Args[2:])
 	default:
 		err = fmt.Errorf("unknown command %q", os.Args[1])
 	}
